@@ -4,7 +4,7 @@ from .. import common
 
 
 def standard_worker(prop, strategy, evaluate, k, n, tier, seed, known_buckets, *, quick_examples, thorough_examples, shrink_quick=40.0, shrink_thorough=200.0):
-    per_worker = (quick_examples if tier == "quick" else thorough_examples) // n + 1
+    per_worker = int((quick_examples if tier == "quick" else thorough_examples) * common.SCALE) // n + 1
     stats, viols = common.hyp_search(
         prop,
         strategy,
